@@ -10,7 +10,8 @@ set +e
 VERIF_REPO="$WT" python3 tools/check.py "$P" --tier "$TIER"
 RC=$?
 set -e
+H=$(python3 -c "import hashlib,os,sys;print(hashlib.sha1(os.path.realpath(sys.argv[1]).encode()).hexdigest()[:8])" "$WT")
+rm -rf "/verif/.work/alt/$H"
 git -C /repo worktree remove --force "$WT"
-rm -rf /verif/.work/alt
 echo "seedtest $P $(basename $(dirname $PATCH)) exit=$RC"
 exit 0
